@@ -341,6 +341,28 @@ class Body:
             if t['k'] == 'drop' and (include_cleanup or not self.is_cleanup(bb)):
                 yield bb, t
 
+    def releases(self, local, include_cleanup=False):
+        """blocks where the value held in `local` is released: an implicit Drop terminator on the local, or the local (or a
+        plain move-copy of it) moved into mem::drop"""
+        out = []
+        for bb, t in self.drops(include_cleanup):
+            if t['place']['local'] == local and not t['place']['proj']:
+                out.append(bb)
+        for bb, t in self.calls(include_cleanup):
+            c = t['callee']
+            if c.get('name') == 'drop' and c.get('path', '').endswith('mem::drop') and t['args'] and t['args'][0]['k'] == 'move':
+                src = t['args'][0]['place']['local']
+                seen = 0
+                while src != local and seen < 4:
+                    ds = [x for x in self.assigns().get(src, ()) if not x[4]]
+                    if len(ds) != 1 or ds[0][2] != 'stmt' or ds[0][3]['k'] != 'use' or ds[0][3]['op']['k'] != 'move' or ds[0][3]['op']['place']['proj']:
+                        break
+                    src = ds[0][3]['op']['place']['local']
+                    seen += 1
+                if src == local:
+                    out.append(bb)
+        return out
+
     # ---- value resolution
     def const_of(self, op, depth=0):
         """resolve an operand to a constant descriptor {'int':..}/{'variant':..} if it is a
@@ -642,12 +664,14 @@ def normalise(j):
 
 
 class Crate:
-    def __init__(self, path, known_names=None, preloaded=None, helper_keys=None):
+    def __init__(self, path, known_names=None, preloaded=None, helper_keys=None, closure_keys=None):
         self.j = preloaded if preloaded is not None else normalise(json.load(open(path)))
         self.name = self.j['crate']
         self.inlined_helpers = set()
         if known_names is not None or helper_keys is not None:
-            self.inlined_helpers = inline_unknown_helpers(self.j, known_names or set(), helper_keys)
+            if closure_keys:
+                self.inlined_helpers |= inline_local_closure_calls(self.j, closure_keys)
+            self.inlined_helpers |= inline_unknown_helpers(self.j, known_names or set(), helper_keys)
         self.all_bodies = [Body(b, self) for b in self.j['bodies']]
         # helpers that were inlined into their callers are analysed there, not on their own
         self.bodies = [b for b in self.all_bodies if b.key not in self.inlined_helpers]
@@ -773,7 +797,7 @@ def _inline_one(caller, bb, callee):
     t = caller['blocks'][bb]['term']
     base_l = len(caller['locals'])
     base_b = len(caller['blocks'])
-    lmap = lambda l: base_l + l
+    lmap = lambda l: l[1] if isinstance(l, tuple) else base_l + l  # ('caller', n): a capture already resolved to a caller local
     bmap = lambda x: base_b + x
     for l in callee['locals']:
         d = dict(l)
@@ -830,6 +854,103 @@ def _inline_one(caller, bb, callee):
         nb['term'] = ct
         caller['blocks'].append(nb)
     caller.setdefault('inlined', []).append(callee['pretty'])
+
+
+def _rewrite_upvars(callee, env_local, by_value, captures):
+    """in the (copied) closure body JSON replace reads of `(*env).upvar#i` / `env.upvar#i` by the operand captured at the
+    construction site (a local of the caller, already valid in the merged body because captures are caller locals and the
+    callee's locals get remapped *after* this step: we mark them with a negative tag)"""
+    def fix_place(p):
+        pr = p['proj']
+        if p['local'] != env_local:
+            return p
+        skip = 0
+        if not by_value:
+            if not pr or pr[0]['k'] != 'deref':
+                return p
+            skip = 1
+        if len(pr) > skip and pr[skip]['k'] == 'field' and pr[skip].get('adt') == '<closure>':
+            cap = captures[pr[skip]['idx']]
+            if cap['k'] in ('move', 'copy'):
+                return {'local': ('caller', cap['place']['local']), 'proj': list(cap['place']['proj']) + pr[skip + 1:]}
+        return p
+
+    def walk(x):
+        if isinstance(x, dict):
+            if 'local' in x and 'proj' in x and isinstance(x['proj'], list):
+                y = fix_place(x)
+                x['local'], x['proj'] = y['local'], y['proj']
+            for v in x.values():
+                walk(v)
+        elif isinstance(x, list):
+            for v in x:
+                walk(v)
+    for blk in callee['blocks']:
+        walk(blk['stmts'])
+        walk(blk['term'])
+
+
+def inline_local_closure_calls(j, closure_keys):
+    """A closure the rules have never seen (no counterpart in the reference tree) that is built in a body and called there
+    directly (`let f = |x| ..; f(a); f(b)`) is spliced into that body at each call, with its captures resolved to the
+    caller's locals. Returns the keys of closures that were fully absorbed that way."""
+    import copy
+    by_key = {b['key']: b for b in j['bodies']}
+    absorbed = set()
+    for b in j['bodies']:
+        built = {}
+        for blk in b['blocks']:
+            for s in blk['stmts']:
+                if s['k'] == 'assign' and s['rv']['k'] == 'aggregate' and s['rv'].get('agg') == 'closure' and not s['dest']['proj'] \
+                        and s['rv'].get('closure') in closure_keys and s['rv']['closure'] in by_key:
+                    built[s['dest']['local']] = s['rv']
+        if not built:
+            continue
+        # references to the closure locals
+        refs = {}
+        for blk in b['blocks']:
+            for s in blk['stmts']:
+                if s['k'] == 'assign' and s['rv']['k'] == 'ref' and not s['rv']['place']['proj'] and s['rv']['place']['local'] in built and not s['dest']['proj']:
+                    refs[s['dest']['local']] = s['rv']['place']['local']
+        sites = defaultdict(list)
+        other_use = set()
+        for bb, blk in enumerate(b['blocks']):
+            t = blk['term']
+            if t['k'] != 'call':
+                continue
+            c = t['callee']
+            a0 = t['args'][0] if t['args'] else None
+            l0 = a0['place']['local'] if a0 and a0['k'] in ('move', 'copy') and not a0['place']['proj'] else None
+            cl = refs.get(l0, l0 if l0 in built else None)
+            if cl is not None and c.get('name') in ('call', 'call_mut', 'call_once') and c.get('resolved') == built[cl]['closure'] and len(t['args']) == 2:
+                sites[cl].append(bb)
+            else:
+                for a in t['args']:
+                    if a['k'] in ('move', 'copy') and (a['place']['local'] in built or a['place']['local'] in refs):
+                        other_use.add(refs.get(a['place']['local'], a['place']['local']))
+        for cl, bbs in sites.items():
+            if cl in other_use or len(b['blocks']) > 600:
+                continue
+            agg = built[cl]
+            orig = by_key[agg['closure']]
+            if len(orig['blocks']) > 80:
+                continue
+            for bb in bbs:
+                t = b['blocks'][bb]['term']
+                callee = copy.deepcopy(orig)
+                by_value = t['callee'].get('name') == 'call_once' and t['args'][0]['place']['local'] == cl
+                _rewrite_upvars(callee, 1, by_value, agg['fields'])
+                # untuple the arguments: callee locals 2.. are the fields of the argument tuple
+                tup = t['args'][1]
+                nargs = orig.get('arg_count', 2) - 1
+                new_args = [t['args'][0]]
+                for i in range(nargs):
+                    new_args.append({'k': 'move', 'place': {'local': tup['place']['local'], 'proj': list(tup['place']['proj']) + [{'k': 'field', 'idx': i, 'name': str(i), 'adt': '<tuple>', 'ty': orig['locals'][2 + i]['ty']}]}}
+                                    if tup['k'] in ('move', 'copy') else tup)
+                t['args'] = new_args
+                _inline_one(b, bb, callee)
+            absorbed.add(agg['closure'])
+    return absorbed
 
 
 def inline_unknown_helpers(j, known_names, helper_keys=None, max_rounds=3):
